@@ -148,6 +148,14 @@ def avoid_known(name, value):
 
 @st.composite
 def strategy_(draw, thorough):
+    if draw(st.integers(0, 5)) == 0:
+        # the structures the writer itself builds (footer, page headers, dictionary page headers, statistics)
+        from vf.gen import frames
+        fr = draw(frames.frame(kinds=["int", "float", "text", "category", "datetime", "nullable", "bool"], max_cols=4, index=False,
+                               rows=[1, 2, 5, 17]))
+        opts = draw(frames.options(fr, schemes=("simple", "simple", "hive")))
+        opts["page_size"] = draw(st.sampled_from([None, 32, 64]))
+        return {"route": "file", "struct": "file", "frame": fr, "opts": opts, "value": {}}
     root = draw(st.sampled_from(ROOTS))
     if draw(st.integers(0, 3)) > 0:
         v = avoid_known(root, draw(struct_value(root, 0, thorough)))
@@ -336,6 +344,8 @@ def run_case(case):
     from fastparquet.cencoding import ThriftObject, from_buffer
     from vf.refpq import compact
     name, route = case["struct"], case["route"]
+    if route == "file":
+        return _file_route(case)
     labels = ["route:" + route, "struct:" + name] + (["steered_away_from_known"] if case.get("steered") else [])
     value = case["value"]
     if route != "reparse":
@@ -397,6 +407,33 @@ def run_case(case):
     return ok(opt >= 3 and nest >= 1, labels)
 
 
+def _file_route(case):
+    """Every thrift structure of every file the writer produces must decode strictly per the IDL."""
+    import os
+    from vf import cases
+    from vf.props import c01
+    from vf.refpq import reader
+    labels = ["route:file"]
+    if cases.required_with_missing(case["frame"], case["opts"]):
+        return discard("missing category cell in a required column (invalid request, C18)", labels)
+    with common.Scratch() as d:
+        df, path, err = c01.write_case({"frame": case["frame"], "opts": case["opts"]}, d)
+        if err is not None:
+            return discard("write_raised", labels)
+        files = [path] if os.path.isfile(path) else [os.path.join(path, f) for f in sorted(os.listdir(path)) if os.path.isfile(os.path.join(path, f))]
+        n_structs = 0
+        for fn in files:
+            with open(fn, "rb") as f:
+                pd_ = reader.read(f.read())
+            for i in pd_.issues:
+                if i.kind == "thrift":
+                    what = i.detail.split()
+                    return viol("conformance|%s|%s|file" % (what[0], what[1].rstrip(":") if len(what) > 1 else ""),
+                                "%s: %s at %s" % (os.path.basename(fn), i.detail, i.where), labels=labels)
+            n_structs += 1 + sum(len(ch.pages) for rg in pd_.row_groups for ch in rg.chunks.values())
+    return ok(n_structs >= 3, labels + ["structs:%s" % ("<5" if n_structs < 5 else "5-20" if n_structs <= 20 else ">20")])
+
+
 def probes():
     """Known findings the campaign is steered away from (beyond-buffer sizes)."""
     big = {"struct": "Statistics", "value": {"max": {"hex": "61" * 600000}, "min": {"hex": "61"}, "null_count": 0},
@@ -405,6 +442,11 @@ def probes():
 
 
 def shrink_moves(case):
+    if case.get("route") == "file":
+        for c in shrinkers.frame_opts_moves({"frame": case["frame"], "opts": case["opts"]}):
+            yield dict(case, frame=c["frame"], opts=c["opts"])
+        return
+
     def moves(name, value):
         I = _idl()
         for f in I.structs[name]:
@@ -453,5 +495,7 @@ def shrink_moves(case):
 
 
 def abbreviate(case):
+    if case.get("route") == "file":
+        return {"route": "file", "frame": shrinkers.abbreviate_frame(case["frame"]), "opts": case["opts"]}
     s = common.canon(case)
     return {"struct": case["struct"], "route": case["route"], "value": (case["value"] if len(s) < 800 else s[:800] + "...")}
